@@ -5,7 +5,9 @@ META = {
     'text': 'Lean 4 theorems: "consumer row exists iff it holds an allocation" is an invariant of every completed request of the '
             'handler model (all states, all well-formed requests; two defects of the original code were repaired by fix: commits '
             'and the model mirrors the repaired code), creation/update/removal/re-creation facts; tied to the code by '
-            'differential histories over all four microversion bands; monitor on the real tables.',
+            'differential histories over all four microversion bands; monitor on the real tables; beyond sequences, every '
+            'interleaving of pairs of allocation writes on a common consumer on the real application with the invariant evaluated '
+            'on the final state; the service runs with two distinct placeholder ids.',
     'level_note': 'trusted: Lean kernel; correspondence sampled; requests well-formed as JSON objects allow (no duplicate consumer / (provider, class) keys).',
     'technique': 'Lean 4 proof (invariant by induction over requests) + model/implementation correspondence',
     'design_ref': 'DESIGN.md section 5, C12',
